@@ -90,50 +90,47 @@ func DecimalShape(r *big.Rat) (digits int, adjExp int, exact bool) {
 		return 1, 0, true
 	}
 	num := new(big.Int).Abs(r.Num())
-	den := new(big.Int).Set(r.Denom())
+	den := r.Denom()
 	// den must be 2^a * 5^b
-	two, five, ten := big.NewInt(2), big.NewInt(5), big.NewInt(10)
-	a, b := 0, 0
-	m := new(big.Int)
-	q := new(big.Int)
-	for {
-		q.QuoRem(den, two, m)
-		if m.Sign() != 0 {
-			break
+	a := int(den.TrailingZeroBits())
+	odd := new(big.Int).Rsh(den, uint(a))
+	b := 0
+	if odd.Cmp(big.NewInt(1)) != 0 {
+		// odd must be 5^b: estimate b from the bit length and verify
+		b = int(float64(odd.BitLen()-1)/2.321928094887362 + 0.5)
+		if b < 1 {
+			b = 1
 		}
-		den.Set(q)
-		a++
-	}
-	for {
-		q.QuoRem(den, five, m)
-		if m.Sign() != 0 {
-			break
+		ok := false
+		for _, c := range []int{b, b - 1, b + 1} {
+			if c >= 1 && new(big.Int).Exp(big.NewInt(5), big.NewInt(int64(c)), nil).Cmp(odd) == 0 {
+				b, ok = c, true
+				break
+			}
 		}
-		den.Set(q)
-		b++
-	}
-	if den.Cmp(big.NewInt(1)) != 0 {
-		return 0, 0, false
+		if !ok {
+			return 0, 0, false
+		}
 	}
 	// value = num / (2^a 5^b) = num * 2^(k-a) * 5^(k-b) / 10^k with k = max(a,b)
 	k := a
 	if b > k {
 		k = b
 	}
-	c := new(big.Int).Set(num)
-	c.Mul(c, new(big.Int).Exp(two, big.NewInt(int64(k-a)), nil))
-	c.Mul(c, new(big.Int).Exp(five, big.NewInt(int64(k-b)), nil))
-	exp := -k
-	for {
-		q.QuoRem(c, ten, m)
-		if m.Sign() != 0 {
-			break
-		}
-		c.Set(q)
-		exp++
+	c := num
+	if k > a {
+		c = new(big.Int).Lsh(c, uint(k-a))
 	}
-	d := len(c.String())
-	return d, exp + d - 1, true
+	if k > b {
+		c = new(big.Int).Mul(c, new(big.Int).Exp(big.NewInt(5), big.NewInt(int64(k-b)), nil))
+	}
+	str := c.String()
+	zeros := 0
+	for zeros < len(str)-1 && str[len(str)-1-zeros] == '0' {
+		zeros++
+	}
+	d := len(str) - zeros
+	return d, -k + zeros + d - 1, true
 }
 
 // Magnitude returns the exponent of the most significant digit of |r| (r != 0).
@@ -189,8 +186,13 @@ func numResult(r *big.Rat) Res {
 		return val(&core.Num{R: r})
 	}
 	mag := Magnitude(r)
-	if mag > maxAdjExp {
+	if mag > maxAdjExp+40 {
 		return fail("not-a-number")
+	}
+	if mag > maxAdjExp {
+		// the decimal128 package keeps some results just above 9.99..e6144 finite (1e34 * 1e6111 is a finite
+		// 1e+6145 there, 9e6144 + 9e6144 is +Inf): the exact top of the range is the dependency's business
+		return unsure("result within 40 orders of magnitude above the largest decimal128 value")
 	}
 	if mag < minAdjExp {
 		return unsure("result in the subnormal range")
